@@ -423,3 +423,50 @@ pub fn records_diff(a: &[(String, Vec<u8>, Vec<u8>)], b: &[(String, Vec<u8>, Vec
     }
     out.join("; ")
 }
+
+// ---------------------------------------------------------------------------
+// async-raft answers a follower that needs a snapshot in a tight loop while the leader's snapshot
+// policy is not met; no simulated time passes during that loop. The tap (repo hook H7) lets a
+// simulated client notice it and keep writing, which is what ends the loop in a real deployment.
+
+thread_local! {
+    static SPIN: RefCell<(u64, u64)> = const { RefCell::new((0, 0)) };
+    static SPIN_NOTIFY: Rc<tokio::sync::Notify> = Rc::new(tokio::sync::Notify::new());
+}
+
+pub fn install_spin_tap() {
+    rnacos::verif_hook::set_tap(Box::new(|name: &str, _detail: String| {
+        if name != "get_current_snapshot" {
+            return;
+        }
+        let now = sim::now_us();
+        let fire = SPIN.with(|s| {
+            let mut s = s.borrow_mut();
+            if s.0 == now {
+                s.1 += 1;
+            } else {
+                *s = (now, 0);
+            }
+            s.1 > 0 && s.1 % 100 == 0
+        });
+        if fire {
+            sim::count("probe.needs_snapshot_loop_detected", 1);
+            SPIN_NOTIFY.with(|n| n.notify_one());
+        }
+    }));
+}
+
+/// sleep `ms` of simulated time, or return early when the needs-snapshot loop is running
+pub async fn sleep_or_spin(ms: u64) {
+    let n = SPIN_NOTIFY.with(|n| n.clone());
+    tokio::select! {
+        _ = tokio::time::sleep(Duration::from_millis(ms)) => {}
+        _ = n.notified() => {}
+    }
+}
+
+/// resolves when the needs-snapshot loop is detected
+pub async fn wait_spin() {
+    let n = SPIN_NOTIFY.with(|n| n.clone());
+    n.notified().await;
+}
